@@ -165,12 +165,29 @@ NEEDS.update({
  "R9_C19_2":"a full-width rejection followed by a top word above the modulus' top word (two cooperating edits in random_mod_core)",
  "R9_C19_3":"infallible Uint::random_mod with a full-width modulus on a multi-limb type: consumes the stream differently from try_random_mod and BoxedUint::random_mod",
 })
+NEEDS.update({
+ "R10_C08_1":"runtime-modulus lincomb_vartime with more products than 2^mod_leading_zeros and a count that is not a multiple of it (trailing partial window dropped)",
+ "R10_C08_2":"compile-time-modulus lincomb_vartime with three or more windows whose sums reach 2m (single reduction at the end)",
+ "R10_C08_3":"MontyForm::pow (not pow_bounded_exp) with an exponent type of another width than the modulus: high bits of a wider exponent ignored, a narrower one panics",
+ "R10_C12_1":"conditional selection between wrappers of a width with more than eight limbs that is not a multiple of eight (U576, U640, ...), values with bits only in the upper limbs",
+ "R10_C12_2":"a BoxedUint without any limb handed to Odd::new (two cooperating edits make the empty integer count as odd)",
+ "R10_C12_3":"a bincode record with a too-short byte string (torn or corrupted length field): accepted and zero-extended in binary formats",
+ "R10_C16_1":"a binary serde record shorter than the integer (torn write, corrupted length field): silently zero-extended (two cooperating edits)",
+ "R10_C16_2":"BoxedUint::from_be_slice with more than 8 octets, a length that is not a multiple of 8 and non-zero stale bytes (scratch buffer reused across limbs)",
+ "R10_C16_3":"the one-byte RLP record 00 (accepted as zero) — an RLP defect, caught under C18",
+ "R10_C18_1":"a DER magnitude 1..7 octets too long for the type (capacity check rounds down to whole limbs; two cooperating sites)",
+ "R10_C18_2":"a canonical nine-octet INTEGER without a sign octet (65..71-bit value) decoded into U128 or wider (single-word fast path with a wrong precondition)",
+ "R10_C18_3":"an RLP item with a long-form header b8 whose length is <= 55 and a payload longer than the type (pre-check through Rlp::size() swallowed, offset underflows)",
+ "R10_C19_1":"BoxedUint::try_random_bits_with_precision with bit_length < bits_precision < limb-rounded bit_length (panics in widen)",
+ "R10_C19_2":"boxed random_mod with modulus exactly 1: the sampler is skipped, so the stream is consumed differently from the fixed-width path",
+ "R10_C19_3":"Uint::try_random_bits_with_precision with a mismatching precision inside the top limb (accepted; bit_length above it returned)",
+})
 os.makedirs("/verif/seeded", exist_ok=True)
 rows=[]
 for name, needs in NEEDS.items():
     parts = name.split("_")
     prop, i = parts[-2], parts[-1]
-    src=f"/tmp/wt2_{prop}/seeded_out/{i}" if name.startswith("R2_") else (f"/tmp/wt3_{prop}/seeded_out/{i}" if name.startswith("R3_") else (f"/tmp/wt4_{prop}/seeded_out/{i}" if name.startswith("R4_") else (f"/tmp/wt5_{prop}/seeded_out/{i}" if name.startswith("R5_") else f"/tmp/wt6_{prop}/seeded_out/{i}" if name.startswith("R6_") else f"/tmp/wt7_{prop}/seeded_out/{i}" if name.startswith("R7_") else f"/tmp/wt8_{prop}/seeded_out/{i}" if name.startswith("R8_") else f"/tmp/wt9_{prop}/seeded_out/{i}" if name.startswith("R9_") else f"/tmp/wt_{prop}/seeded_out/{i}")))
+    src=f"/tmp/wt2_{prop}/seeded_out/{i}" if name.startswith("R2_") else (f"/tmp/wt3_{prop}/seeded_out/{i}" if name.startswith("R3_") else (f"/tmp/wt4_{prop}/seeded_out/{i}" if name.startswith("R4_") else (f"/tmp/wt5_{prop}/seeded_out/{i}" if name.startswith("R5_") else f"/tmp/wt6_{prop}/seeded_out/{i}" if name.startswith("R6_") else f"/tmp/wt7_{prop}/seeded_out/{i}" if name.startswith("R7_") else f"/tmp/wt8_{prop}/seeded_out/{i}" if name.startswith("R8_") else f"/tmp/wt9_{prop}/seeded_out/{i}" if name.startswith("R9_") else f"/tmp/wt10_{prop}/seeded_out/{i}" if name.startswith("R10_") else f"/tmp/wt_{prop}/seeded_out/{i}")))
     res_p=f"/tmp/seed_logs/{name}.json"
     if not (os.path.isdir(src) and os.path.exists(res_p)):
         if not os.path.exists(f"/verif/seeded/{name}/meta.json"): print("missing", name)
@@ -198,8 +215,8 @@ for name, needs in NEEDS.items():
       "caught_by":caught,
       "first_violations_reported":first,
     }
-    if name[:3] in ("R6_","R7_","R8_","R9_"):
-        meta["written_by"]="independent sub-agent given the property text, a scratch worktree, and (rounds 6 to 9) a list of the kinds of change earlier rounds had already tried, so that it would look elsewhere; nothing from /verif"
+    if name[:3] in ("R6_","R7_","R8_","R9_") or name.startswith("R10_"):
+        meta["written_by"]="independent sub-agent given the property text, a scratch worktree, and (rounds 6 to 10) a list of the kinds of change earlier rounds had already tried, so that it would look elsewhere; nothing from /verif"
         meta["confirmed_by_me"]["worktree"]=meta["confirmed_by_me"]["worktree"].replace("/tmp/wt_eval ","/tmp/wt_eval or /tmp/wt_eval2 ")
     old_p=os.path.join(dst,"meta.json")
     if os.path.exists(old_p):
